@@ -1,6 +1,7 @@
 import Lean.Data.Json
 import CobraModel.Model.AuxProb
 import CobraModel.Model.Fastcc
+import CobraModel.Model.Resettable
 /-! Line-protocol driver of the auxiliary-problem builders: a model description and a builder call per line,
 the whole solver problem out (same shape as `harness/canon.glpk_dump`). -/
 open Lean AuxM Core
@@ -159,6 +160,19 @@ def handle (j : Json) : Except String Json := do
     let nats := fun (l : List Nat) => Json.arr (l.map (fun (n : Nat) => Json.num (JsonNumber.fromNat n))).toArray
     return Json.mkObj [("kept", nats res.kept), ("complete", Json.bool res.complete),
       ("calls", Json.arr (res.calls.map (fun c => Json.mkObj [("j", nats c.j), ("flipped", Json.bool c.flipped), ("ans", nats c.ans)])).toArray)]
+  if b == "resettable" then
+    -- a bound setter under `resettable` inside one context: the assignments, then `__exit__`
+    let vals ← (← (← j.getObjVal? "vals").getArr?).toList.mapM (fun x => do
+      let t ← x.getStr?
+      if t == "junk" then pure (ResetM.Val.junk 0) else pure (ResetM.Val.num (← parseRat t)))
+    -- every refused value is a value of its own (NaN is not equal to NaN: the wrapper's "unchanged" test never fires for it)
+    let vals := vals.zipIdx.map (fun (p : ResetM.Val × Nat) => match p.1 with | .junk _ => ResetM.Val.junk p.2 | x => x)
+    let valJ := fun (v : ResetM.Val) => match v with | .num q => Json.str (ratStr q) | .junk _ => Json.str "junk"
+    let stJ := fun (s : ResetM.St) => Json.mkObj [("field", valJ s.field), ("solver", Json.str (ratStr s.solver))]
+    let step := if (j.getObjValAs? Bool "late").toOption.getD false then ResetM.setLate else ResetM.set
+    let (s, oks) := vals.foldl (fun (acc : ResetM.St × List Bool) v => let r := step acc.1 v; (r.1, acc.2 ++ [r.2])) (ResetM.init (← ratOf j "q0"), [])
+    let e := ResetM.exit s
+    return Json.mkObj [("oks", Json.arr (oks.map Json.bool).toArray), ("inside", stJ s), ("exit_ok", Json.bool e.2), ("after", stJ e.1)]
   if b == "sampler" then
     let n ← netOf (← j.getObjVal? "net")
     let extra ← (← (← j.getObjVal? "extra").getArr?).toList.mapM extraOf
